@@ -1,32 +1,56 @@
 /-
 C01 — Every symbol built decodes back to exactly the input bytes.
 
-Stage lemmas proved so far (the composition `C01_roundtrip` is stated below and not yet closed):
-* `C01_format_identifies` : the 32 format words are distinct (format read-out determines level, mask).
-* `C01_unmask`            : un-masking = masking again, for every matrix (C08_involution).
-* `C01_scan`              : the model places bits in exactly the ISO read-out order of the encoding
-                            region, each cell once (tier N `scanOk`).
-* `C01_layout`            : block layout = ISO Table 9 (C02_layout), so de-interleaving by Table 9
-                            inverts the model's interleaving order.
-Missing links: get/set read-back over the scan (c), interleave permutation (d), bit packing (e),
-`Bitstream.parse (segment …) = payload` (f) and C06's refinement (g) — DESIGN.md §4 C01.
+`C01_roundtrip` (proved, no sorry): for EVERY input byte string, EVERY legal option set (level, mode,
+version, mask forced or automatic) — whenever the model of `QRBuilder::build` returns a symbol, the
+ISO/IEC 18004 reference decoding procedure (`Spec.Decode.decode`: size -> version, first format copy
+-> (level, mask) by exact match, un-mask, zig-zag read-out of the encoding region, cut into
+codewords, Table 9 de-interleave, strict single-segment parse incl. terminator and pad codewords)
+succeeds on it and returns exactly (reported mode, input bytes), and the level / mask / version it
+reads are the reported ones. The stages:
+  (a) `FormatRead.formatCopy1_final`, `version_final`        format word & size identify (l, m, v)
+  (b) `ReadBack.finalMatrix_data` (via C08 `applyMask_get`)   un-masking
+  (c) `PlaceRead.placeData_read` (tier N `scanOk` + counting) k-th read-out cell holds bit k
+  (e) `CutBytes.bytesOfBits_bitsFrom`                         bits -> codewords
+  (d) `Deinterleave.structure_data`, `deinterleave_data` (tier N `interleaveOk`, `deintOk`)
+  (g) `EncodeSound.encode_codewords` (C06)                    buffer = ISO data codewords
+  (f) `ParseRoundTrip.parse_codewords`                        strict parser inverts the ISO encoder
+Together with C10_total (`build` never traps) this is the statement about the model; the model is tied
+to the Rust code by the generated tables and the differential correspondence of `./check C01`.
 -/
 import FastQr.Props.C02
 import FastQr.Props.C08
 import FastQr.Props.C15
 import FastQr.Model.Build
 import FastQr.Finite.TablesFormat
+import FastQr.Proofs.RoundTrip
 
 namespace FastQr.Props.C01
 open FastQr Model Spec Finite Proofs
 
-/-- the full statement (not yet proved): decoding the built symbol returns the input -/
-def C01_statement : Prop :=
-  ∀ (inp : List Nat) (o : Opts) (b : Built),
-    Spec.alphabetOK (o.mode.getD (bestEncoding inp)) inp = true →
-    (build inp o).traps = [] → (build inp o).val = .ok b →
+/-- **C01**: the reference decoder returns the input, for every input, option set and built symbol.
+`IsBytes` and `LegalOpts` are the typing invariants of the Rust API (`&[u8]`, `Version` ∈ V01..V40,
+`Mask` ∈ 8 variants); `alphabetOK` says a FORCED mode can represent the input (automatic mode always
+can: `C01_roundtrip_auto`) -/
+theorem C01_roundtrip (inp : List Nat) (o : Opts) (b : Built) (hb : Spec.IsBytes inp) (ho : LegalOpts o)
+    (halpha : Spec.alphabetOK (o.mode.getD (bestEncoding inp)) inp = true)
+    (h : (build inp o).val = .ok b) :
     ∃ r, Decode.decode ⟨b.qr.n, b.qr.cells⟩ (Regions.regionMap b.version) = .ok r ∧
-      r.parsed = some ⟨b.mode, inp⟩
+      r.parsed = some ⟨b.mode, inp⟩ ∧ r.ecl = b.ecl ∧ r.mask = b.mask ∧ r.version = b.version :=
+  RoundTrip.roundtrip inp o b hb ho halpha h
+
+/-- automatic mode needs no alphabet hypothesis -/
+theorem C01_roundtrip_auto (inp : List Nat) (o : Opts) (b : Built) (hb : Spec.IsBytes inp) (ho : LegalOpts o)
+    (hauto : o.mode = none) (h : (build inp o).val = .ok b) :
+    ∃ r, Decode.decode ⟨b.qr.n, b.qr.cells⟩ (Regions.regionMap b.version) = .ok r ∧
+      r.parsed = some ⟨b.mode, inp⟩ ∧ r.ecl = b.ecl ∧ r.mask = b.mask ∧ r.version = b.version :=
+  C01_roundtrip inp o b hb ho (by rw [hauto]; exact C09.C09_never_rejects inp hb) h
+
+/-- … and the builder does return a symbol (never an error, never a trap) whenever some version can
+hold the input: C05_build + C10_total; so the round trip is not vacuous -/
+theorem C01_nonvacuous (inp : List Nat) (o : Opts) (hb : Spec.IsBytes inp) (ho : LegalOpts o)
+    (halpha : Spec.alphabetOK (o.mode.getD (bestEncoding inp)) inp = true) :
+    (build inp o).traps = [] := Total.build_total inp o hb ho halpha
 
 theorem C01_format_identifies : formatInjOk = true := formatInjOk_true
 
